@@ -240,7 +240,8 @@ func (o *functionOperator) loadSeries(ctx context.Context) error {
 		}
 
 		if o.funcExpr.Func.Name == "scalar" {
-			o.series = []labels.Labels{}
+			// Same shape as a number literal: one unlabeled series with ID 0.
+			o.series = make([]labels.Labels, 1)
 			return
 		}
 
